@@ -23,7 +23,10 @@ NAMES = [("nordicsemi.com", "nRF54H20_sample_app"), ("ACME Corp", "Light bulb v2
          # identifier is a function of the PAIR, and of nothing an earlier derivation in the same process left behind
          ("example.com", "app.dev"), ("dev.example.com", "app"), ("app.dev.example.com", "bootloader"), ("com", "app.dev.example"),
          ("ab", "c"), ("a", "bc"), ("abc", "x"), ("a b", "c"), ("a", "b c"), ("a/b", "c"), ("a", "b/c"), ("a:b", "c"), ("a", "b:c"),
-         ("a-b", "c"), ("a", "b-c"), ("a_b", "c"), ("a", "b_c"), ("a,b", "c"), ("a", "b,c"), ("c", "a.b"), ("b.c", "a")]
+         ("a-b", "c"), ("a", "b-c"), ("a_b", "c"), ("a", "b_c"), ("a,b", "c"), ("a", "b,c"), ("c", "a.b"), ("b.c", "a"),
+         # ONE name under two namespaces, a name that is also a namespace, a vendor that is another pair's class
+         ("nordicsemi.com", "app_core"), ("example.org", "app_core"), ("app_core", "example.org"), ("example.org", "example.org"),
+         ("Acme-IoT.Example.COM", "Mixed.Case"), ("acme-iot.example.com", "Mixed.Case"), ("acme-iot.example.com", "mixed.case")]
 OBS_NAMES = [('quo"te', 'back\\slash')]
 PAIRS = {"dRoot": ("nordicsemi.com", "nRF54H20_sample_root"), "dApp": ("nordicsemi.com", "nRF54H20_sample_app"),
          "dRad": ("nordicsemi.com", "nRF54H20_sample_rad"), "cA": ("ACME Corp", "acme app"),
